@@ -187,6 +187,8 @@ def make_world(scen, oracles=(), fault_plan=None):
     if login == "submit":
         argv = ["jade", "submit-jobs", cfg, "-o", root]
         w.spawn("login", "login1", dict(scen["base_env"]), lambda: run_cli(argv), kind="login")
+    elif login == "pipeline":
+        pipeline_login(w)
     elif callable(login):
         login(w)
     for a in scen.get("actors", ()):
@@ -260,7 +262,8 @@ def _g_always(w):
 
 def spawn_actor(w, a):
     """a: dict(name, argv=[...] with {out} placeholders, host, guard, after=name-of-actor)."""
-    argv = [x.replace("{out}", w.root) for x in a["argv"]]
+    argv0 = [x.replace("{out}", w.root) for x in a["argv"]]
+    argv = argv0
     g = GUARDS[a.get("guard", "submitted")]
     after = a.get("after")
     if after is not None:
@@ -290,6 +293,11 @@ def spawn_actor(w, a):
                 # re-armed actor: waits (free start) until its guard holds again
                 vp.sync(Op("start", "again", guard=g))
             vp.data["rounds"] = i + 1
+            argv = argv0
+            if "{stage}" in argv0:
+                with __import__("jmc.engine", fromlist=["raw"]).raw():
+                    sd = current_stage_dir(vp.world)[1]
+                argv = [x.replace("{stage}", sd or vp.world.root) for x in argv0]
             vp.world.emit("actor_round", vp=vp, n=i + 1)
             try:
                 code = run_cli(argv)
@@ -423,3 +431,85 @@ def reference(jobs, exit_codes, missing=()):
     for n in by:
         ev(n)
     return res
+
+
+# ------------------------------------------------------------------------------ pipelines (C15)
+def pipeline_login(w):
+    """Write stage configs + pipeline.json under <base>/in and start `jade pipeline submit`."""
+    import copy
+
+    from jade.models import HpcConfig, SubmitterParams
+    from jade.models.pipeline import PipelineConfig, PipelineStage
+
+    scen = w.scen
+    base = os.path.dirname(w.root)
+    stages = []
+    for k, st in enumerate(scen["stages"], start=1):
+        sub = dict(scen)
+        sub["jobs"] = st["jobs"]
+        sub["groups"] = [st["group"]]
+        sub["mode"] = st.get("mode", "hpc")
+        sub["hooks"] = {}
+        key = "pipe-cfg-%d-%s" % (k, json.dumps([st, scen.get("with_groups")], sort_keys=True, default=str))
+        text = _cfg_cache.get(key)
+        g = st["group"]
+        local = st.get("mode") == "local"
+        if local:
+            hpc = HpcConfig(hpc_type="local", hpc={})
+        else:
+            hpc = HpcConfig(hpc_type="slurm", hpc={"account": "acct", "walltime": g["walltime"]})
+        params = SubmitterParams(hpc_config=hpc, per_node_batch_size=g["size"], num_processes=g["nproc"],
+                                 try_add_blocked_jobs=g["try_add"], max_nodes=g["max_nodes"],
+                                 generate_reports=False, resource_monitor_type="none", resource_monitor_interval=None)
+        if text is None:
+            cfg = build_config(sub)
+            if not st.get("with_groups", k % 2 == 0):
+                cfg._submission_groups = []  # the stage's submitter params become the default group
+            import io
+
+            buf = io.StringIO()
+            cfg.dump(filename=None, stream=buf)
+            text = buf.getvalue()
+            _cfg_cache[key] = text
+        path = f"{base}/in/stage{k}.json"
+        with open(path, "w") as f:
+            f.write(text)
+        stages.append(PipelineStage(config_file=path, stage_num=k, submitter_params=params, auto_config_cmd=None))
+    pj = f"{base}/in/pipeline.json"
+    with open(pj, "w") as f:
+        f.write(PipelineConfig(stages=stages, stage_num=1).json(indent=2))
+    argv = ["jade", "pipeline", "submit", pj, "-o", w.root]
+    w.spawn("login", "login1", dict(scen["base_env"]), lambda: run_cli(argv), kind="login")
+
+
+def current_stage_dir(w):
+    try:
+        with open(w.rootp + "pipeline.json") as f:
+            d = json.load(f)
+    except (OSError, ValueError):
+        return None, None
+    k = d.get("stage_num", 1)
+    return d, f"{w.root}/output-stage{k}"
+
+
+@guard("pipeline_idle_incomplete")
+def _g_pipeline_idle(w):
+    if w.sim.active_batches():
+        return False
+    if any(v.status == "ready" and v.pending is not None and v.pending.kind != "start" for v in w.vprocs):
+        return False
+    d, sd = current_stage_dir(w)
+    if d is None or d.get("is_complete"):
+        return False
+    try:
+        with open(sd + "/cluster_config.json") as f:
+            c = json.load(f)
+    except (OSError, ValueError):
+        return False
+    return not c.get("is_complete")
+
+
+@guard("pipeline_stage2_started")
+def _g_pipeline_stage2(w):
+    d, sd = current_stage_dir(w)
+    return d is not None and d.get("stage_num", 1) >= 2
